@@ -174,7 +174,7 @@ def part_json(ctx, n):
 OUTS = {'d1': [None, 'r.out', 'sub/r.out', 'a.out/a.out', 'noext', '../up.out', 'nodir/x.out', 'ABS:other/abs.out',
                'ABS:other/../d1/back.out', './x.y.z', '.hid', 'sub//dbl.out', 'sub/../a.out/r.out', 'ABS:d1/a.out/a.out'],
         'd1/sub': [None, '../a.out/a.out', 'ABS:other/abs2.out', 'r.out', '../../other/o.out']}
-# quick tier: the first input gets the first 9 shapes of d1 and 3 of d1/sub, every other input 2 random shapes
+# quick tier: the first input gets the first 9 shapes of d1 and 2 of d1/sub, every other input 1 random shape
 
 
 def cli_case(ctx, idx, text, cwd_rel, out):
@@ -223,7 +223,7 @@ def part_cli(ctx):
         code = 0 if ref['ok'] else (2 if ref['error'] == 'SystemExit(None)' else 1)
         outs = [('d1', o) for o in OUTS['d1']] + [('d1/sub', o) for o in OUTS['d1/sub']]
         if ctx.quick:
-            outs = ([('d1', o) for o in OUTS['d1'][:9]] + [('d1/sub', o) for o in OUTS['d1/sub'][:3]]) if k == 0 else rnd.sample(outs, 2)
+            outs = ([('d1', o) for o in OUTS['d1'][:9]] + [('d1/sub', o) for o in OUTS['d1/sub'][:2]]) if k == 0 else rnd.sample(outs, 1)
         for cwd_rel, o in outs:
             plan.append((name, text, code, ref, cwd_rel, o))
     j = len(ok_inputs)
@@ -265,7 +265,8 @@ def part_cli(ctx):
                             'python -m geophires_x: the simulation failed but the exit status is 0 or files were written'
                             + (' (the simulator ends the run with a bare sys.exit())' if code == 2 else ''),
                             inp=rec, expected='non-zero exit status, no report', observed={'exit': ob['exit'], 'files': ob['new'], 'stderr': ob['stderr']})
-    ctx.sample('cli-process', {k: obs[4][k] for k in ('cwd', 'inp', 'out', 'exit', 'new')})
+    anon = lambda v: re.sub(r'/cli_\d+_[0-9a-f]{6}', '/cli_N', str(v).replace(str(ctx.scratch), '<scratch>'))
+    ctx.sample('cli-process', {k: anon(obs[4][k]) for k in ('cwd', 'inp', 'out', 'exit', 'new')})
     failing = fw.kernel_bools(ctx, 'cli', ['Model.CliPaths'], terms, open_scope='string_scope')
     for i in failing[:5]:
         name, text, code, ref, cwd_rel, o = plan[i]
@@ -341,7 +342,7 @@ def part_client(ctx, ok_inputs, direct):
         res = list(ex.map(_client_job, jobs))
         mcj = []
         for k, (name, text) in enumerate(ok_inputs):
-            if direct[k]['ok'] and direct[k]['report']:
+            if direct[k]['ok'] and direct[k]['report'] and (k < 2 or not ctx.quick):
                 lines = direct[k]['report'].splitlines(keepends=True)
                 outs = [o for o in MC_OUTPUTS if mc_value(lines, o) is not None]
                 mcj.append((k, outs, ex.submit(_mc_job, (text, outs, str(ctx.scratch), str(fw.SRC)))))
